@@ -279,16 +279,16 @@ def check(pid, tier, seed):
             # 2. scenarios
             scns = scenarios_from(sc, name, c, quick, seed, rng, out)
             scns.sort(key=interesting, reverse=True)
-            take = scns[:(30 if quick else 200)]
+            take = scns[:(30 if quick else 120)]
             rest = scns[len(take):]
             # a stratum of its own: several blocks fetched and advanced in one batch (no poll in between), the more
             # transactions in them the better - the property quantifies over every fetch batching
-            batched = sorted((e for e in rest if batch_weight(e)[0] >= 2), key=batch_weight, reverse=True)[:(20 if quick else 100)]
+            batched = sorted((e for e in rest if batch_weight(e)[0] >= 2), key=batch_weight, reverse=True)[:(20 if quick else 60)]
             take += batched
             ids_ = set(map(id, take))
             rest = [e for e in rest if id(e) not in ids_]
             rng.shuffle(rest)
-            take += rest[:(30 if quick else 200)]
+            take += rest[:(30 if quick else 120)]
             p = params_of(c)
             for evs in take:
                 jobs.append((evs, p, None, None, None))
@@ -303,16 +303,16 @@ def check(pid, tier, seed):
                 if pid == 'C04':
                     # half by number of durable operations, half by the longest run of history-only flushes ahead of
                     # the UTXO flush (what clear_excess has to undo on restart)
-                    n = 6 if quick else 60
+                    n = 6 if quick else 18
                     byrun = sorted(base, key=lambda t: (-hist_run(t['job']['events']), -t['ops']))
                     chosen = base[:n // 2]
                     chosen += [t for t in byrun if t not in chosen][:n - len(chosen)]
                     out.add(max_hist_run=max(hist_run(t['job']['events']) for t in chosen))
                 elif pid == 'C15':
                     # the window must also be there after a crash inside a flush: every LevelDB commit of a few long runs
-                    chosen = base[:(4 if quick else 30)]
+                    chosen = base[:(4 if quick else 10)]
                 else:
-                    chosen = [t for t in base if any(s.get('ev') == 'backedup' for s in t['steps'])][:6 if quick else 60]
+                    chosen = [t for t in base if any(s.get('ev') == 'backedup' for s in t['steps'])][:6 if quick else 18]
                 for t in chosen:
                     j = t['job']
                     for k in range(1, t['ops'] + 1):
@@ -334,7 +334,7 @@ def check(pid, tier, seed):
         # 4. validation
         keys = ('tree', 'activation', 'limit', 'steps')
         res, failures = validate_traces(sc, 'IndexTrace', 'IndexTrace.cfg', [{k: t[k] for k in keys} for t in traces],
-                                        workers=16, timeout=3000, invariants=CLAUSES[pid])
+                                        workers=16, timeout=3000 if quick else 7000, invariants=CLAUSES[pid], max_bytes=60_000_000 if quick else 15_000_000)
         out.add(traces_validated_against_impl=len(traces), trace_states=res.distinct,
                 evaluations=len(traces), distinct_nontrivial=len({json.dumps(t['job'], sort_keys=True) for t in traces}),
                 rule='one real execution per (scenario exported by TLC from Index.tla, crash ordinal, torn fraction, '
